@@ -97,6 +97,36 @@ Print Assumptions C18_vec_reserve_doubles.
 Print Assumptions C18_vec_reallocations_logarithmic.
 Print Assumptions C18_vec_reserved_capacity.
 
+(* chunk_capacity() as the source computes it is finger - data: the model's q_chunk_capacity;
+   the slow path's minimum chunk size, first candidate, small-limit bypass and the test that lets a
+   candidate be tried are the values ArenaPolicy.slow_policy / cand_loop / bypass start from; the
+   statements around them (halving, the limit filter, installing the chunk) are present as text *)
+Theorem C18_source_chunk_capacity : forall m start ptr lsize ab lim, start <= ptr -> actual_footer <= lsize ->
+  call_fn src_fns (List.app (self_full start ptr lsize ab lim) (cenv m)) "chunk_capacity" [] = RustSem.Ret (VN (ptr - start)).
+Proof. intros m start ptr lsize ab lim H1 H2. exact (proj1 (src_getters_ok m start ptr lsize ab lim H1 H2)). Qed.
+
+Theorem C18_source_slow_path : forall m e0 (b : bump) l start ptr,
+  actual_footer <= cur_layout_size (actual m e0) b ->
+  let k := actual m e0 in
+  let en := List.app (self_full start ptr (cur_layout_size k b) (ab_of b) (limit b)) (cenv m) in
+  let min_new := N.max (l_size l) actual_default in
+  call_fn src_fns en "slow_min_new_chunk_size" [vlayout l] = RustSem.Ret (VN min_new) /\
+  call_fn src_fns en "slow_first_candidate" [vlayout l]
+    = RustSem.Ret (vtry (match checked_mul (cur_layout_size k b - actual_footer) 2 with
+                 | Some dbl => Some (N.max dbl min_new) | None => None end)) /\
+  (forall dbl, checked_mul (cur_layout_size k b - actual_footer) 2 = Some dbl ->
+     call_fn src_fns en "slow_bypass" [vlayout l] = RustSem.Ret (VB (bypass b l k (N.max dbl min_new))) /\
+     call_fn src_fns en "slow_try_candidate_cond" [vlayout l]
+       = RustSem.Ret (VB ((min_new <=? N.max dbl min_new) || bypass b l k (N.max dbl min_new)))).
+Proof. exact src_slow_path_ok. Qed.
+
+Theorem C18_source_frames : forallb snd src_frames = true.
+Proof. exact src_frames_ok. Qed.
+
+Print Assumptions C18_source_chunk_capacity.
+Print Assumptions C18_source_slow_path.
+Print Assumptions C18_source_frames.
+
 (* ---- whole histories (ArenaGrowth.v) ---- *)
 From BV Require Import ArenaGrowth.
 Close Scope string_scope.
